@@ -11,6 +11,7 @@ mod fam_g;
 mod fam_h;
 mod fam_i;
 mod fam_k;
+mod fam_t;
 mod hist;
 mod json;
 mod oracle_a;
@@ -62,6 +63,7 @@ fn family_props(f: &str) -> &'static [&'static str] {
         "H" => &["C17"],
         "I" => &["C16"],
         "K" => &["C19", "C16", "C04"],
+        "T" => &["C11"],
         _ => &[],
     }
 }
@@ -79,6 +81,7 @@ fn run_one(family: &str, seed: u64, tiny: bool, focus: &str, base_seed: u64, ind
         "H" => fam_h::run(base_seed, index, tiny, thorough),
         "I" => fam_i::run(index, tiny),
         "K" => fam_k::run(seed, tiny, focus),
+        "T" => fam_t::run(seed, tiny, focus),
         _ => panic!("unknown family {}", family),
     }
 }
